@@ -920,7 +920,7 @@ class Interp(object):
                                                           'intersection', 'issubset', 'issuperset', 'count', 'popitem', 'isdisjoint',
                                                           'symmetric_difference', 'difference_update', 'intersection_update',
                                                           'get', 'items', 'keys', 'values', 'index',
-                                                          'difference', 'union', 'sort'):
+                                                          'difference', 'union', 'sort', 'reverse'):
             r = getattr(v, attr)(*args, **kwargs)
             if attr in ('items', 'keys', 'values'):
                 return list(r)
@@ -1256,6 +1256,9 @@ class Interp(object):
         if isinstance(v, Obj) and '__strval__' in v.attrs:
             return v.attrs['__strval__']
         if isinstance(v, ExcVal):
+            if v.attrs.get('__str_raises__'):
+                # an exception class of the evaluated code whose __str__ raises
+                raise InterpRaise(v.attrs['__str_raises__'], 'raised by __str__ of %s' % v.exc_name)
             return v.msg
         if isinstance(v, (int, float, bool, tuple)) or v is None:
             return str(v)
@@ -1278,6 +1281,9 @@ class Interp(object):
             return list(v)
         if isinstance(v, str):
             return list(v)
+        if type(v).__name__ in ('dict_keyiterator', 'list_iterator', 'tuple_iterator', 'dict_valueiterator', 'dict_itemiterator',
+                                'list_reverseiterator', 'dict_keys', 'dict_values', 'dict_items', 'range', 'str_iterator'):
+            return list(v)       # a native iterator over an ordered container
         if isinstance(v, Obj):
             m = v.cls.lookup('__iter__')
             if m is not None:
@@ -1518,8 +1524,9 @@ class Interp(object):
         if isinstance(e.slice, ast.Slice):
             lo = self.eval(e.slice.lower, f) if e.slice.lower else None
             hi = self.eval(e.slice.upper, f) if e.slice.upper else None
-            if isinstance(v, (list, tuple, str, bytes)):
-                return v[lo:hi]
+            step = self.eval(e.slice.step, f) if e.slice.step else None
+            if isinstance(v, (list, tuple, str, bytes)) and all(x is None or isinstance(x, int) for x in (lo, hi, step)):
+                return v[lo:hi:step]
             raise Uninterpretable('slice of %r' % (v,))
         i = self.index_value(self.eval(e.slice, f))
         if isinstance(v, LocExpr) and i in (0, 1):
@@ -1646,6 +1653,10 @@ class Interp(object):
     def s_AugAssign(self, st, f):
         cur = self.eval(_load(st.target), f)
         v = self.eval(st.value, f)
+        if isinstance(st.op, ast.Add) and isinstance(cur, list) and isinstance(v, (list, tuple, set, frozenset, dict, str)) \
+                and not isinstance(v, SymIdent):
+            cur.extend(self.iterate(v))      # list.__iadd__ takes any iterable
+            return
         if isinstance(st.op, ast.Add) and isinstance(cur, (int, list, str, tuple)) and type(cur) is type(v):
             if isinstance(cur, list):
                 cur.extend(v)
